@@ -564,3 +564,72 @@ func TestReplay(t *testing.T) {
 		r.Fail(t, key, msg, c)
 	}
 }
+
+// TestConcurrentClients: clients for two registries are created and used concurrently from ONE client
+// configuration; each loopback server must only ever see the token configured for its own address.
+func TestConcurrentClients(t *testing.T) {
+	r := evid.R()
+	home := t.TempDir()
+	if err := os.MkdirAll(filepath.Join(home, ".config", "buf"), 0o755); err != nil {
+		t.Fatal(err)
+	}
+	if err := os.WriteFile(filepath.Join(home, ".config", "buf", "config.yaml"), []byte("version: v1\ntls:\n  use: \"false\"\n"), 0o644); err != nil {
+		t.Fatal(err)
+	}
+	a, b := newRecServer(), newRecServer()
+	defer a.srv.Close()
+	defer b.srv.Close()
+	r.Check(t, r.Scale(40, 800), 3, func(t *rapid.T) {
+		tokA, tokB := genWord.Draw(t, "tokA"), genWord.Draw(t, "tokB")
+		if tokA == tokB {
+			tokB += "x"
+		}
+		workers := rapid.IntRange(2, 8).Draw(t, "workers")
+		rounds := rapid.IntRange(1, 6).Draw(t, "rounds")
+		s := tokA + "@" + a.addr() + "," + tokB + "@" + b.addr()
+		c := tokCase{BufToken: "<tokA>@<server0>,<tokB>@<server1>", Hosts: []string{fmt.Sprintf("workers=%d rounds=%d", workers, rounds)}}
+		envMap := map[string]string{"BUF_TOKEN": s, "HOME": home, "NETRC": filepath.Join(home, "no-netrc")}
+		base := app.NewContainer(envMap, strings.NewReader(""), io.Discard, io.Discard, "buf")
+		nc, err := appext.NewNameContainer(base, "buf")
+		if err != nil {
+			t.Fatalf("harness: %v", err)
+		}
+		cfg, err := bufcli.NewConnectClientConfig(appext.NewContainer(nc, slog.New(slog.NewTextHandler(io.Discard, nil))))
+		if err != nil {
+			t.Fatalf("harness: %v", err)
+		}
+		a.take()
+		b.take()
+		var wg sync.WaitGroup
+		for w := 0; w < workers; w++ {
+			wg.Add(1)
+			go func(w int) {
+				defer wg.Done()
+				for i := 0; i < rounds; i++ {
+					addr := a.addr()
+					if (w+i)%2 == 1 {
+						addr = b.addr()
+					}
+					client := connectclient.Make(cfg, addr, modulev1connect.NewModuleServiceClient)
+					_, _ = client.GetModules(context.Background(), connect.NewRequest(&modulev1.GetModulesRequest{}))
+				}
+			}(w)
+		}
+		wg.Wait()
+		r.Eval()
+		for _, got := range a.take() {
+			if got != bearer(tokA) {
+				r.Fail(t, "token-leaked-to-other-host", fmt.Sprintf("concurrent clients (%d workers x %d rounds): server A saw Authorization=%q, its token is %q (B's is %q)", workers, rounds, got, tokA, tokB), c)
+				return
+			}
+		}
+		for _, got := range b.take() {
+			if got != bearer(tokB) {
+				r.Fail(t, "token-leaked-to-other-host", fmt.Sprintf("concurrent clients (%d workers x %d rounds): server B saw Authorization=%q, its token is %q (A's is %q)", workers, rounds, got, tokB, tokA), c)
+				return
+			}
+		}
+		r.Class("concurrent-clients")
+		r.NonTrivial(fmt.Sprintf("conc|%d|%d|%s|%s", workers, rounds, tokA, tokB))
+	})
+}
